@@ -78,19 +78,39 @@ def main():
         n = rng.randint(1, 4)
         c = QuantumCircuit(n)
         for _ in range(rng.randint(1, 8)):
-            c.add_gate(rand_gate(rng, npr, n, ["H", "X", "RX", "RY", "RZ", "CNOT", "CZ", "SWAP", "T", "U3", "TOFFOLI", "UM2", "Pauli", "PauliRotation"]))
+            c.add_gate(rand_gate(rng, npr, n, ["H", "X", "RX", "RY", "RZ", "CNOT", "CZ", "SWAP", "T", "U3", "TOFFOLI", "UM1", "UM2",
+                                               "Pauli", "PauliRotation"], id0=False))
         reg = rng.randint(n, 7)
         vals = rng.sample(range(reg), n)
         mp = dict(zip(range(n), vals))
         bm = BackendQubitMapping(mp)
-        rc = bm.circuit_transpiler(c)
         m = max(vals) + 1
         res.count(("dist", tuple(mp.items()), tuple(map(str, describe(c)))), bucket="distribution")
-        if rc.qubit_count != m:
-            res.fail("sweep:remap:qubit_count", f"register size {rc.qubit_count} != max target + 1 = {m}", {"mapping": mp})
+        try:
+            rc = bm.circuit_transpiler(c)
+            ok_meta = rc.qubit_count == m
+            if not ok_meta:
+                res.fail("sweep:remap:qubit_count", f"register size {rc.qubit_count} != max target + 1 = {m}", {"mapping": mp})
+                continue
+            # gate by gate: everything but the indices is carried over, the indices are relabelled
+            for g, h in zip(c.gates, rc.gates):
+                if (h.name, tuple(h.params), tuple(h.pauli_ids), tuple(map(tuple, h.unitary_matrix))) != (
+                        g.name, tuple(g.params), tuple(g.pauli_ids), tuple(map(tuple, g.unitary_matrix))) or (
+                        tuple(h.control_indices) != tuple(mp[q] for q in g.control_indices)) or (
+                        tuple(h.target_indices) != tuple(mp[q] for q in g.target_indices)):
+                    res.fail("sweep:remap:gate", f"gate {g} was remapped to {h}", {"mapping": mp, "circuit": describe(c)})
+                    ok_meta = False
+                    break
+            if len(rc.gates) != len(c.gates):
+                res.fail("sweep:remap:gate_count", f"{len(c.gates)} gates became {len(rc.gates)}", {"mapping": mp, "circuit": describe(c)})
+                ok_meta = False
+            if not ok_meta:
+                continue
+            U = O.circuit_unitary(c.gates, n)
+            V = O.circuit_unitary(rc.gates, m)
+        except Exception as e:  # noqa: BLE001
+            res.fail("crash:remap", f"{type(e).__name__}: {str(e)[:160]}", {"mapping": mp, "circuit": describe(c)})
             continue
-        U = O.circuit_unitary(c.gates, n)
-        V = O.circuit_unitary(rc.gates, m)
         # V must equal U on relabelled qubits (x) identity elsewhere, exactly
         ok = True
         for col in rng.sample(range(2 ** m), min(6, 2 ** m)):
@@ -131,6 +151,34 @@ def main():
         res.fail("sweep:remap:unmapped_qubit_accepted", "circuit using an unmapped qubit accepted", {})
     except ValueError:
         pass
+    # a mapping that leaves out ONE qubit the circuit uses - below, between or above the mapped sources - is rejected
+    # (ValueError), whatever the other entries are; the same mapping is accepted for the circuit without that qubit
+    for _ in range(60 if a.tier == "quick" else 600):
+        n = rng.randint(2, 6)
+        missing = rng.randrange(n)
+        srcs = [q for q in range(n) if q != missing]
+        mp = dict(zip(srcs, rng.sample(range(n + 2), len(srcs))))
+        c = QuantumCircuit(n)
+        others = [q for q in range(n) if q != missing]
+        kind = rng.choice(["1q", "ctrl", "tgt", "pauli"])
+        if kind == "1q":
+            c.add_H_gate(missing)
+        elif kind == "ctrl":
+            c.add_CNOT_gate(missing, rng.choice(others))
+        elif kind == "tgt":
+            c.add_CNOT_gate(rng.choice(others), missing)
+        else:
+            c.add_Pauli_gate([rng.choice(others), missing], [1, 3])
+        inp = {"mapping": {str(k): v for k, v in mp.items()}, "circuit": describe(c)}
+        res.count(("missing", tuple(mp.items()), kind, missing), nontrivial=False, bucket="rejection:missing_qubit")
+        try:
+            out = QubitRemappingTranspiler(mp)(c)
+            res.fail("sweep:remap:unmapped_qubit_accepted", f"qubit {missing} is used but has no entry in the mapping; returned "
+                     f"{[str(g) for g in out.gates][:2]}", inp)
+        except ValueError:
+            pass
+        except Exception as e:  # noqa: BLE001
+            res.fail("sweep:remap:unmapped_qubit_error", f"{type(e).__name__} instead of the documented ValueError: {str(e)[:120]}", inp)
     res.count("rejections", nontrivial=False)
     res.emit()
 
